@@ -49,6 +49,9 @@ type dialogWorld struct {
 	linger       []*dlg
 	lastStraddle time.Time
 	probeCount   int
+	byeCount     int
+	// noWaitForAnswer: respondFromBackend returns as soon as the answer is sent
+	noWaitForAnswer bool
 }
 
 // backendIndex maps an endpoint name "be<s>.<k>/udp" to k-1.
@@ -163,6 +166,9 @@ func (w *dialogWorld) respondFromBackend(svc int, o *wire.Obs, id string, status
 				c.Send(resp.Bytes(), rid)
 			}
 		}
+	}
+	if w.noWaitForAnswer {
+		return true
 	}
 	_, ok := w.Net.WaitCase(rid, func(x []*wire.Obs) bool { return len(x) >= 1 }, w.BarrierWait)
 	return ok
@@ -922,6 +928,9 @@ func scenarioPinTime() int {
 			d.n, d.svc, d.backend, d.kind = i, g.R.Intn(len(w.Svcs)), -1, "invite"
 			d.callID = g.Alnum(8, 14) + "@" + g.Hostname()
 			d.a, d.b = w.genParty(b*1000+i, "alice"), w.genParty(b*1000+i, "bob")
+			if i%7 == 3 {
+				d.b.uri = d.a.uri // both parties under one URI (a subscription to oneself): only the tags tell them apart
+			}
 			plan := plans[g.R.Intn(len(plans))]
 			d.life = timeout
 			switch plan {
@@ -1086,7 +1095,12 @@ func (w *dialogWorld) ptExec(e ptEvent) {
 		}
 		id := w.nextID("bye")
 		m := w.request(id, "BYE", d.svc, d.a, d.b, d.callID)
-		obs, _, ok := w.sendFromUA(m, id, g.R.Intn(len(w.UAs)), d.svc, "udp")
+		w.byeCount++
+		byeProto, byeUA := "udp", g.R.Intn(len(w.UAs))
+		if w.byeCount%3 == 2 && d.backend < len(w.Svcs[d.svc].BeUDP) {
+			byeProto = "tcp"
+		}
+		obs, byePath, ok := w.sendFromUA(m, id, byeUA, d.svc, byeProto)
 		be := w.atBackends(d.svc, obs)
 		if !ok || len(be) != 1 {
 			d.ended = true
@@ -1094,6 +1108,24 @@ func (w *dialogWorld) ptExec(e ptEvent) {
 		}
 		var status int
 		fmt.Sscanf(e.arg, "%d", &status)
+		if byeProto == "tcp" && be[0].Proto == "udp" {
+			// the caller hangs up its connection right after the BYE: the backend's answer can no
+			// longer be passed on to it - the backend has answered the BYE all the same. The answer
+			// enters through the listener's UDP socket; a sentinel through the same socket proves
+			// that the proxy has dealt with it.
+			w.DropConn(byePath)
+			time.Sleep(30 * time.Millisecond)
+			w.noWaitForAnswer = true
+			w.respondFromBackend(d.svc, be[0], id, status, "")
+			w.noWaitForAnswer = false
+			if w.Barrier(wire.Path{UA: byeUA, Svc: d.svc, Proto: "udp"}) {
+				d.dissolve = "bye"
+				w.stats["byes_answered_after_the_caller_hung_up_its_connection"]++
+			} else {
+				d.ended = true
+			}
+			return
+		}
 		if be[0].Proto == "udp" {
 			w.stats["byes_to_udp_backends"]++
 		}
